@@ -212,3 +212,200 @@ Print Assumptions c05_shift_certificate_optimal_touched.
 Print Assumptions c05_shift_writeback_value.
 Print Assumptions c05_certified_shift_never_worsens.
 Print Assumptions c05_history_with_certified_shifts_monotone.
+
+(* ======================================================================================== *)
+(* C05, composition -- the wirelength of the CIRCUIT exposed by detailed placement (to be merged into
+   Properties_C05.v).  Models: DetailedValue.v (Circuit::hpwl over Circuit.circuit, the two incremental
+   models at construction, the coupling invariant between the row structure and the models, the paired
+   steps bestSwap/bestInsert/bestSwapUpdate, runShiftsOnCells, RowReordering::run), on top of
+   DetailedInit.from_circuit, DetailedExport.write_back, Optimiser.v, ShiftLp.v.
+   Hypotheses that the property text does not spell out, and why they are there:
+     int_pins          the pin coordinates of the circuits whose Circuit::hpwl is compared fit in a machine int
+                       (true of every C++ state by typing; Circuit::hpwl and IncrNetModel start their min / max
+                       loops from INT_MAX / INT_MIN, which is only exact on ints);
+     orient_frozen     THE F8 SCOPE RESTRICTION: no cell with a row polarity has, in the exposed circuit, another
+                       orientation than at construction (the models keep the pin offsets of that moment);
+                       c05_exposed_frozen_offsets_refuted shows that it cannot be dropped;
+     phist_ok          per step: best-move candidates are swaps / inserts; the cells of a shift pass / reordering
+                       are cells of the rows; lemon's answer passes the proved certificate checker; the write-back
+                       of a reordering is accepted by the structure (otherwise the C++ throws and exposes nothing). *)
+From Coq Require Import List ZArith Lia Bool.
+Import ListNotations.
+Require Import CV.Orient CV.FreeSpace CV.Circuit CV.CircuitProofs CV.Hpwl CV.Moves CV.MovesProofs CV.MovesOrientProofs.
+Require Import CV.Optimiser CV.OptimiserProofs CV.ShiftLp CV.ShiftLpProofs CV.LegalizerSoundProofs.
+Require Import CV.DetailedInit CV.DetailedInitProofs CV.DetailedExport CV.DetailedExportProofs.
+Require Import CV.DetailedValue CV.DetailedValueProofs CV.DetailedValueStepProofs.
+
+(* [F] Circuit::hpwl over Circuit.circuit: the model through Hpwl.hpwl (C09) is the direct transcription of
+   coloquinte.cpp 236-259 (x(cell) + pinXOffset, sentinels INT_MAX / INT_MIN, empty nets skipped) *)
+Theorem c05_hpwl_circuit_is_circuit_hpwl : forall c nets, hpwl_circuit c nets = hpwl_direct c nets.
+Proof. exact hpwl_circuit_direct. Qed.
+
+(* [F] the coupling invariant holds after construction: DetailedPlacement::fromIspdCircuit + xTopology + yTopology
+   of a legal circuit of the C01 domain (PInv: the structure stands for the circuit (C02's Rel), its rows are legal,
+   no cell is unplaced, ids are unique, both models satisfy their invariant, their nets are the ones of
+   construction, and `coupled`: x model = p_x, y model = y of the row for every cell in a row, circuit position for
+   every other cell, the extra cell at 0) *)
+Theorem c05_coupling_holds_at_construction : forall c rh nets d0,
+  std_design c rh -> legal c -> from_circuit c = DOk d0 ->
+  PInv c rh nets {| ps_d := d0; ps_o := init_models c nets |}.
+Proof. exact init_PInv. Qed.
+
+(* [F] every paired step keeps the invariant and does not increase the optimised value *)
+Theorem c05_coupling_preserved_by_every_step : forall c rh nets s st,
+  std_design c rh -> PInv c rh nets s -> pstep_ok s st ->
+  PInv c rh nets (pstep_run s st) /\ ovalue (ps_o (pstep_run s st)) <= ovalue (ps_o s).
+Proof. exact pstep_keeps_invariant. Qed.
+
+Theorem c05_coupling_preserved_by_every_history : forall c rh nets l s,
+  std_design c rh -> PInv c rh nets s -> phist_ok s l ->
+  PInv c rh nets (psteps_run s l) /\ ovalue (ps_o (psteps_run s l)) <= ovalue (ps_o s).
+Proof. exact phist_keeps_invariant. Qed.
+
+(* [F] under the invariant, the two models hold exactly the positions of the exposed circuit *)
+Theorem c05_models_hold_exposed_positions : forall c rh d o,
+  Rel c rh d -> coupled c d o ->
+  ipos (ox o) = map hx (hcells (write_back c d)) ++ [0] /\ ipos (oy o) = map hy (hcells (write_back c d)) ++ [0].
+Proof. exact exposed_positions. Qed.
+
+(* [F] value of the exposed circuit: Circuit::hpwl() after exportPlacement IS DetailedPlacer::value(), in the
+   F8 scope (orient_frozen) *)
+Theorem c05_exposed_hpwl_is_value : forall c rh nets s,
+  PInv c rh nets s -> orient_frozen c (ps_d s) -> int_pins (write_back c (ps_d s)) nets ->
+  hpwl_circuit (write_back c (ps_d s)) nets = ovalue (ps_o s).
+Proof. exact exposed_value_inv. Qed.
+
+(* [F] what is exposed before any accepted move is the legalized circuit itself *)
+Theorem c05_exposed_initially : forall c rh d0,
+  std_design c rh -> legal c -> from_circuit c = DOk d0 -> orient_frozen c d0 /\ write_back c d0 = c.
+Proof. exact exposed_initial. Qed.
+
+(* [F] C05, main: for every legal circuit of the C01 domain accepted by from_circuit and every history l1 ++ l2 of
+   paired steps, the circuit exposed after l1 ++ l2 has a wirelength <= the one exposed after l1 <= the legalized
+   one (successive callbacks, and the return), provided both exposed states are in the F8 scope; both circuits are
+   legal (C02) *)
+Theorem c05_exposed_wirelength_never_increases : forall c rh nets d0 l1 l2,
+  std_design c rh -> legal c -> from_circuit c = DOk d0 ->
+  let s0 := {| ps_d := d0; ps_o := init_models c nets |} in
+  phist_ok s0 (l1 ++ l2) ->
+  let sj := psteps_run s0 l1 in
+  let sk := psteps_run s0 (l1 ++ l2) in
+  orient_frozen c (ps_d sj) -> orient_frozen c (ps_d sk) ->
+  int_pins c nets -> int_pins (write_back c (ps_d sj)) nets -> int_pins (write_back c (ps_d sk)) nets ->
+  exposed_hpwl c nets sk <= exposed_hpwl c nets sj <= hpwl_circuit c nets /\
+  legal (write_back c (ps_d sj)) /\ legal (write_back c (ps_d sk)).
+Proof. exact exposed_monotone. Qed.
+
+(* [F] the same with hypotheses on the INPUT only (apart from the F8 scope): int_pins of the legalized circuit and
+   pins_fit (every pin of a movable row-high cell stays a machine int wherever the cell sits in a row) give int_pins
+   at every exposed state of the F8 scope *)
+Theorem c05_exposed_pins_stay_ints : forall c rh nets s,
+  std_design c rh -> PInv c rh nets s -> orient_frozen c (ps_d s) -> int_pins c nets -> pins_fit c rh nets ->
+  int_pins (write_back c (ps_d s)) nets.
+Proof. exact exposed_int_pins. Qed.
+
+Theorem c05_exposed_wirelength_never_increases_static : forall c rh nets d0 l1 l2,
+  std_design c rh -> legal c -> from_circuit c = DOk d0 ->
+  let s0 := {| ps_d := d0; ps_o := init_models c nets |} in
+  phist_ok s0 (l1 ++ l2) ->
+  let sj := psteps_run s0 l1 in
+  let sk := psteps_run s0 (l1 ++ l2) in
+  orient_frozen c (ps_d sj) -> orient_frozen c (ps_d sk) ->
+  int_pins c nets -> pins_fit c rh nets ->
+  exposed_hpwl c nets sk <= exposed_hpwl c nets sj <= hpwl_circuit c nets /\
+  legal (write_back c (ps_d sj)) /\ legal (write_back c (ps_d sk)).
+Proof. exact exposed_monotone_static. Qed.
+
+(* [F] circuits without polarised cells are entirely in the F8 scope *)
+Theorem c05_no_polarity_no_restriction : forall c d,
+  (forall k, In k (cells c) -> c_pol k = pANY) -> orient_frozen c d.
+Proof. exact orient_frozen_any. Qed.
+
+(* [R, known finding F8] the hypothesis orient_frozen cannot be dropped: a legal two-row circuit, one polarised cell,
+   one accepted bestInsert: every other hypothesis of c05_exposed_wirelength_never_increases holds, the optimised
+   value DEcreases (3 -> 1) and Circuit::hpwl of the exposed (legal) circuit INcreases (3 -> 5) *)
+Theorem c05_exposed_frozen_offsets_refuted :
+  exists c rh nets d0 l,
+    std_design c rh /\ legal c /\ from_circuit c = DOk d0 /\
+    let s0 := {| ps_d := d0; ps_o := init_models c nets |} in
+    phist_ok s0 l /\ int_pins c nets /\ int_pins (write_back c (ps_d (psteps_run s0 l))) nets /\
+    legal (write_back c (ps_d (psteps_run s0 l))) /\
+    ~ orient_frozen c (ps_d (psteps_run s0 l)) /\
+    ovalue (ps_o (psteps_run s0 l)) < ovalue (ps_o s0) /\
+    hpwl_circuit c nets < exposed_hpwl c nets (psteps_run s0 l).
+Proof. exact exposed_frozen_offsets_refuted. Qed.
+
+(* non-vacuity: rows [0,20]x[0,2] (N) and [0,20]x[2,4] (FS); movable 2x2 cells WITHOUT polarity A = 0 at (0,0),
+   B = 1 at (10,2), C = 2 at (14,0); fixed pins 3 at (9,3), 4 at (9,0), 5 at (11,1); nets {A.(1,1), 3}, {B.(1,1), 4},
+   {C.(0,0), 5}.  History: bestSwap(A, {B}) -- a swap ACROSS ROWS, accepted: A -> (9,2), B -> (6,0), wirelength
+   19 -> 8 --, then runShiftsOnCells({B, C}) with an accepted certificate: B -> 8, C -> 11, wirelength 8 -> 3.
+   All hypotheses of c05_exposed_wirelength_never_increases hold at both exposed states; the numbers are computed
+   on the exposed circuits (Circuit::hpwl) and agree with the optimised value. *)
+Definition ex5 : circuit :=
+  {| rows := [mkrow 0 20 0 2 oN; mkrow 0 20 2 4 oFS];
+     cells := [mkcell 0 0 2 2 oN pANY false true; mkcell 10 2 2 2 oN pANY false true; mkcell 14 0 2 2 oN pANY false true;
+               mkcell 9 3 0 0 oN pANY true false; mkcell 9 0 0 0 oN pANY true false; mkcell 11 1 0 0 oN pANY true false] |}.
+Definition ex5_nets : list (list hpin) := [[hp 0 1 1; hp 3 0 0]; [hp 1 1 1; hp 4 0 0]; [hp 2 0 0; hp 5 0 0]].
+Definition ex5_pi (n : snode) : Z :=
+  match n with NCell 1 => 8 | NCell 2 => 11 | NL 1 => 9 | NU 1 => 9 | NL 2 => 11 | NU 2 => 11 | _ => 0 end.
+Definition ex5_flow : list Z := [0; 0; 0; 0; 0; 1; 1; 0; 0; 1; 1].
+Definition ex5_l1 : list pstep := [PBest [MSwap 0 1]].
+Definition ex5_l2 : list pstep := [PShift [1%nat; 2%nat] ex5_pi ex5_flow].
+
+Example c05_compose_nonvacuous :
+  std_design ex5 2 /\ legal ex5 /\ (forall k, In k (cells ex5) -> c_pol k = pANY) /\
+  exists d0, from_circuit ex5 = DOk d0 /\
+    let s0 := {| ps_d := d0; ps_o := init_models ex5 ex5_nets |} in
+    let sj := psteps_run s0 ex5_l1 in
+    let sk := psteps_run s0 (ex5_l1 ++ ex5_l2) in
+    phist_ok s0 (ex5_l1 ++ ex5_l2) /\
+    orient_frozen ex5 (ps_d sj) /\ orient_frozen ex5 (ps_d sk) /\
+    int_pins ex5 ex5_nets /\ int_pins (write_back ex5 (ps_d sj)) ex5_nets /\ int_pins (write_back ex5 (ps_d sk)) ex5_nets /\
+    map (fun k => (c_x k, c_y k)) (cells (write_back ex5 (ps_d sj))) = [(9, 2); (6, 0); (14, 0); (9, 3); (9, 0); (11, 1)] /\
+    map (fun k => (c_x k, c_y k)) (cells (write_back ex5 (ps_d sk))) = [(9, 2); (8, 0); (11, 0); (9, 3); (9, 0); (11, 1)] /\
+    hpwl_circuit ex5 ex5_nets = 19 /\ exposed_hpwl ex5 ex5_nets sj = 8 /\ exposed_hpwl ex5 ex5_nets sk = 3 /\
+    ovalue (ps_o s0) = 19 /\ ovalue (ps_o sj) = 8 /\ ovalue (ps_o sk) = 3.
+Proof.
+  assert (HA : forall k, In k (cells ex5) -> c_pol k = pANY).
+  { intros k Hk. vm_compute in Hk. repeat (destruct Hk as [<-|Hk]; [reflexivity|]). destruct Hk. }
+  assert (SD : std_design ex5 2).
+  { split; [lia|]. split; [intros r [<-|[<-|[]]]; reflexivity|].
+    split; [apply pairwise_disjointb_spec; vm_compute; reflexivity|].
+    split; [intros r [<-|[<-|[]]]; reflexivity|].
+    intros k Hk. vm_compute in Hk.
+    repeat (destruct Hk as [<-|Hk];
+            [split; [vm_compute; reflexivity|]; split; [exists 1%nat; split; [lia|vm_compute; reflexivity]|left; reflexivity]|]).
+    destruct Hk. }
+  split; [exact SD|]. split; [apply legalb_correct; vm_compute; reflexivity|]. split; [exact HA|].
+  eexists. split; [vm_compute; reflexivity|]. cbn zeta.
+  split.
+  { cbn [app ex5_l1 ex5_l2 phist_ok pstep_ok]. split; [reflexivity|]. split; [|exact I].
+    split; vm_compute; reflexivity. }
+  split; [apply orient_frozen_any; exact HA|]. split; [apply orient_frozen_any; exact HA|].
+  split; [apply int_pinsb_sound; vm_compute; reflexivity|].
+  split; [apply int_pinsb_sound; vm_compute; reflexivity|].
+  split; [apply int_pinsb_sound; vm_compute; reflexivity|].
+  vm_compute. repeat split; reflexivity.
+Qed.
+
+Example c05_compose_static_nonvacuous : int_pins ex5 ex5_nets /\ pins_fit ex5 2 ex5_nets.
+Proof.
+  split; [apply int_pinsb_sound; vm_compute; reflexivity|].
+  intros net p k r Hn Hp Hk Fx Hh Hr.
+  destruct Hn as [<-|[<-|[<-|[]]]]; destruct Hp as [<-|[<-|[]]]; vm_compute in Hk; injection Hk as <-; try discriminate Fx;
+    destruct Hr as [<-|[<-|[]]]; vm_compute; repeat split; discriminate.
+Qed.
+
+Print Assumptions c05_hpwl_circuit_is_circuit_hpwl.
+Print Assumptions c05_coupling_holds_at_construction.
+Print Assumptions c05_coupling_preserved_by_every_step.
+Print Assumptions c05_coupling_preserved_by_every_history.
+Print Assumptions c05_models_hold_exposed_positions.
+Print Assumptions c05_exposed_hpwl_is_value.
+Print Assumptions c05_exposed_initially.
+Print Assumptions c05_exposed_wirelength_never_increases.
+Print Assumptions c05_exposed_pins_stay_ints.
+Print Assumptions c05_exposed_wirelength_never_increases_static.
+Print Assumptions c05_no_polarity_no_restriction.
+Print Assumptions c05_exposed_frozen_offsets_refuted.
+
